@@ -382,4 +382,198 @@ theorem threeWay_no_internal (S : Schema) : ∀ (L : List Node) (f extra : Nat) 
                   | text s m => simp [spineL] at ha; omega
                   | leaf ty' a' m' => simp [spineL] at ha; omega
 
+/-! ### cutting inside the range never dies (`Fragment.cut` indexes past the end only for `to > size`) -/
+
+theorem cutText_ne_internal (s : List Nat) (f t : Nat) : cutText s f t ≠ .error .internal := by
+  unfold cutText
+  split
+  · simp
+  · split
+    · simp
+    · simp only
+      split <;> simp
+
+def CutNISpec (kids : List Node) : Prop :=
+  ∀ (f t : Nat), t ≤ fsize kids → fcutLoop kids f t ≠ .error .internal
+
+theorem fcut_ni_of_spec {kids : List Node} (IH : CutNISpec kids) (f t : Nat) (ht : t ≤ fsize kids) :
+    fcut kids f t ≠ .error .internal := by
+  unfold fcut
+  split
+  · simp
+  · split
+    · simp
+    · exact IH f t ht
+
+theorem fcutLoop_no_internal : ∀ kids : List Node, CutNISpec kids
+  | [], f, t, ht, h => by
+    have : t = 0 := by simpa using ht
+    subst this
+    simp [fcutLoop] at h
+  | n :: ns, f, t, ht, h => by
+    have IHns := fcutLoop_no_internal ns
+    simp only [fsize_cons] at ht
+    have htail : ∀ f', fcutLoop ns f' (t - n.size) ≠ .error .internal :=
+      fun f' => IHns f' (t - n.size) (by omega)
+    rw [fcutLoop] at h
+    split at h
+    · simp at h
+    · simp only at h
+      split at h
+      · split at h
+        · cases n with
+          | text s m =>
+            simp only at h
+            split at h
+            · split at h
+              · simp at h
+              · rename_i e he
+                simp at h; subst h
+                exact htail _ he
+            · rename_i e he
+              simp at h; subst h
+              exact cutText_ne_internal _ _ _ he
+          | leaf ty a m =>
+            simp only at h
+            split at h
+            · simp at h
+            · rename_i e he
+              simp at h; subst h
+              exact htail _ he
+          | elem ty a m kids =>
+            simp only at h
+            split at h
+            · split at h
+              · simp at h
+              · rename_i e he
+                simp at h; subst h
+                exact htail _ he
+            · rename_i e he
+              simp at h; subst h
+              rw [Node.cut_elem] at he
+              cases hc : fcut kids (f - 1) (min (fsize kids) (t - 1)) with
+              | ok c => rw [hc] at he; simp [Except.map] at he
+              | error e' =>
+                rw [hc] at he; simp [Except.map] at he; subst he
+                exact fcut_ni_of_spec (fcutLoop_no_internal kids) _ _ (Nat.min_le_left _ _) hc
+        · split at h
+          · simp at h
+          · rename_i e he
+            simp at h; subst h
+            exact htail _ he
+      · exact htail _ h
+
+theorem fcut_no_internal (kids : List Node) (f t : Nat) (ht : t ≤ fsize kids) :
+    fcut kids f t ≠ .error .internal :=
+  fcut_ni_of_spec (fcutLoop_no_internal kids) f t ht
+
+/-! ### `atLevel`, `outer`, `replaceKids` -/
+
+theorem map_ne_internal {α β} {r : Res α} {g : α → β} (h : r ≠ .error .internal) :
+    r.map g ≠ .error .internal := by
+  cases r with
+  | ok x => simp [Except.map]
+  | error e => simpa [Except.map] using h
+
+theorem atLevel_no_internal (S : Schema) (sl : Slice) (ty : TypeId) (level : List Node) (f t extra : Nat)
+    (hwf : sl.wf = true) (hf : f ≤ fsize level)
+    (hdf : depthAt level f = extra + sl.openStart) (hdt : depthAt level t = extra + sl.openEnd) :
+    atLevel S sl ty level f t extra ≠ .error .internal := by
+  simp only [Slice.wf, Bool.and_eq_true, decide_eq_true_eq] at hwf
+  intro h
+  unfold atLevel at h
+  simp only at h
+  split at h
+  · split at h <;> simp at h
+  · rename_i e he
+    simp at h; subst h
+    split at he
+    · rename_i h0
+      -- empty slice content: no spine, so both open depths are 0
+      have h1 := spineL_le sl.content
+      have h2 := spineR_le sl.content
+      exact map_ne_internal (twoWay_no_internal S level f level t (by omega)) he
+    · split at he
+      · split at he
+        · simp at he
+        · rename_i e' he'
+          simp at he; subst he
+          exact fcut_no_internal level 0 f hf he'
+        · rename_i e' he' _
+          simp at he; subst he
+          exact fcut_no_internal level t (fsize level) (Nat.le_refl _) he'
+      · exact map_ne_internal (threeWay_no_internal S level f extra sl.content sl.openStart sl.openEnd
+          level t hdf hdt hwf.1 hwf.2) he
+
+/-- **replace_outer**: the invariant `replaceKids` establishes (`depth from = extra + openStart`,
+    `depth to = extra + openEnd`, slice spines long enough) is kept along the descent -/
+theorem outer_no_internal (S : Schema) (sl : Slice) (hwf : sl.wf = true) :
+    ∀ (rest : List Node) (ty : TypeId) (level : List Node) (f0 t0 idx f t extra : Nat),
+      f0 ≤ fsize level →
+      depthAt level f0 = extra + sl.openStart → depthAt level t0 = extra + sl.openEnd →
+      depthAt rest f = extra + sl.openStart → depthAt rest t = extra + sl.openEnd → f ≤ t →
+      outer S sl ty level f0 t0 idx rest f t extra ≠ .error .internal
+  | [], ty, level, f0, t0, idx, f, t, extra, hf0, hlf, hlt, _, _, _, h => by
+    unfold outer at h
+    exact atLevel_no_internal S sl ty level f0 t0 extra hwf hf0 hlf hlt h
+  | n :: ns, ty, level, f0, t0, idx, f, t, extra, hf0, hlf, hlt, hrf, hrt, hft, h => by
+    have here := atLevel_no_internal S sl ty level f0 t0 extra hwf hf0 hlf hlt
+    unfold outer at h
+    split at h
+    · exact here h
+    · rename_i hf
+      split at h
+      · rename_i hle
+        rw [depthAt_skip n ns f hle] at hrf
+        rw [depthAt_skip n ns t (by omega)] at hrt
+        exact outer_no_internal S sl hwf ns ty level f0 t0 (idx + 1) (f - n.size) (t - n.size) extra
+          hf0 hlf hlt hrf hrt (by omega) h
+      · rename_i hlt'
+        split at h
+        · rename_i tyC aC mC kidsC
+          split at h
+          · rename_i hcond
+            simp only [Bool.and_eq_true, decide_eq_true_eq, Node.size_elem, ne_eq] at hcond
+            simp only [Node.size_elem, Nat.not_le] at hlt'
+            rw [depthAt_elem_cons _ _ _ _ _ _ (by omega) hlt'] at hrf
+            rw [depthAt_elem_cons _ _ _ _ _ _ (by omega) hcond.2] at hrt
+            split at h
+            · simp at h
+            · rename_i e he
+              simp at h; subst h
+              exact outer_no_internal S sl hwf kidsC tyC kidsC (f - 1) (t - 1) 0 (f - 1) (t - 1) (extra - 1)
+                (by omega) (by omega) (by omega) (by omega) (by omega) (by omega) he
+          · exact here h
+        · exact here h
+
+theorem replaceKids_no_internal (S : Schema) (ty : TypeId) (kids : List Node) (f t : Nat) (sl : Slice)
+    (hwf : sl.wf = true) : replaceKids S ty kids f t sl ≠ .error .internal := by
+  intro h
+  unfold replaceKids at h
+  split at h
+  · simp at h
+  · rename_i hg
+    simp only [inRange, Bool.or_eq_true, Bool.not_eq_true', decide_eq_false_iff_not,
+      decide_eq_true_eq, not_or, Nat.not_lt, Decidable.not_not] at hg
+    simp only at h
+    split at h
+    · simp at h
+    · rename_i h1
+      split at h
+      · simp at h
+      · rename_i h2
+        simp only [ne_eq, Decidable.not_not] at h2
+        rw [if_neg (by simp [hwf])] at h
+        exact outer_no_internal S sl hwf kids ty kids f t 0 f t _ hg.1.1
+          (by omega) (by omega) (by omega) (by omega) hg.2 h
+
+theorem replace_no_internal (S : Schema) (doc : Node) (f t : Nat) (sl : Slice)
+    (hdoc : doc.isLeaf = false) (hwf : sl.wf = true) : S.replace doc f t sl ≠ .error .internal := by
+  cases doc with
+  | text s m => simp [Node.isLeaf] at hdoc
+  | leaf ty a m => simp [Node.isLeaf] at hdoc
+  | elem ty a m kids =>
+    unfold Schema.replace
+    exact map_ne_internal (replaceKids_no_internal S ty kids f t sl hwf)
+
 end PM
